@@ -3,6 +3,10 @@
 mod common;
 mod c01;
 mod c02;
+mod c20;
+mod c14;
+mod c13;
+mod c03;
 mod c12;
 mod c10;
 mod c09;
@@ -27,6 +31,11 @@ fn main() {
                 i += 1;
                 tier = args[i].clone();
             }
+            "--digest-only" => {
+                silence_panics();
+                c20::digest_only();
+                return;
+            }
             "--replay" => {
                 i += 1;
                 replay = Some(args[i].clone());
@@ -45,6 +54,10 @@ fn main() {
         let ok = match id.as_str() {
             "C01" => c01::replay(&v["case"]),
             "C02" => c02::replay(&v["case"]),
+            "C20" => c20::replay(&v["case"]),
+            "C14" => c14::replay(&v["case"]),
+            "C13" => c13::replay(&v["case"]),
+            "C03" => c03::replay(&v["case"]),
             "C12" => c12::replay(&v["case"]),
             "C10" => c10::replay(&v["case"]),
             "C09" => c09::replay(&v["case"]),
@@ -64,6 +77,10 @@ fn main() {
     match id.as_str() {
         "C01" => c01::run(run),
         "C02" => c02::run(run),
+        "C20" => c20::run(run),
+        "C14" => c14::run(run),
+        "C13" => c13::run(run),
+        "C03" => c03::run(run),
         "C12" => c12::run(run),
         "C10" => c10::run(run),
         "C09" => c09::run(run),
